@@ -71,18 +71,27 @@ def stream_scenarios():
     return out
 
 
-def run_stream_scenario(sc):
+def run_stream_scenario(sc, carry_on="direct"):
     quad = sc["stream"] == "QuadStream"
     cfg = impl.default_cfg(integ="generic", sclass=("quad" if quad else "triple"), ltype=(2 if quad else 1), delimited=True, frame_size=10**6, preset=(16, 8, 0))
     stream = impl.make_stream(cfg)
     stream.enroll()
     frames, accepted, raised = [], [], []
+    from pyjelly.integrations.generic import serialize as gser  # noqa: PLC0415
+
     for i, st in enumerate(sc["statements"]):
         tt = [writer.to_impl_term(t, "generic") for t in st]
         try:
-            fr = stream.quad(tt) if quad else stream.triple(tt)
-            if fr:
-                frames.append(fr)
+            if carry_on == "enroll-again" and raised:
+                stream.enroll()                       # idempotent by contract; the integrations call it at the start of every stream_frames()
+            if carry_on == "stream_frames" and raised and len(tt) == (4 if quad else 3):
+                gs_ = terms.generic_classes()
+                for fr in gser.stream_frames(stream, (x for x in [(gs_.Quad if quad else gs_.Triple)(*tt)])):
+                    frames.append(fr)
+            else:
+                fr = stream.quad(tt) if quad else stream.triple(tt)
+                if fr:
+                    frames.append(fr)
             accepted.append(tuple(st))
         except Exception as ex:  # noqa: BLE001
             raised.append((i, type(ex).__name__))
@@ -180,9 +189,9 @@ def main(tier: str) -> int:
             traces.append({"id": len(cases) - 1, "rows": terms.jrows_of_frames(frames), "mode": "seq", "prefix": True,
                            "exp": [terms.jitem(terms.norm_item(it)) for it in res["accepted"]]})
     # TripleStream / QuadStream: enumerated slot x nesting x cause x (earlier slots repeated or fresh)
-    for sc in stream_scenarios():
-        data, accepted, raised = run_stream_scenario(sc)
-        key = {"stream": sc["stream"], "cause": sc["cause"], "slot": sc["slot"], "nested": sc["nested"] != "no"}
+    for sc, carry_on in [(sc, "direct") for sc in stream_scenarios()] + [(sc, how) for sc in stream_scenarios()[::7] for how in ("enroll-again", "stream_frames")]:
+        data, accepted, raised = run_stream_scenario(sc, carry_on)
+        key = {"stream": sc["stream"], "cause": sc["cause"], "slot": sc["slot"], "nested": sc["nested"] != "no", "carry_on": carry_on}
         distinct.add((sc["stream"], sc["cause"], sc["slot"], sc["nested"], sc["before"]))
         frames = wire.dec_stream(data, delimited=True)
         cases.append({"key": key, "model_bad": None, "res": {"rejected": raised, "accepted": accepted},
